@@ -140,6 +140,14 @@ def tensor_method(it, tv, name, args, kwargs, node):
     base = name[:-1] if inplace else name
 
     # ---------------- identity / storage
+    if name in ("untyped_storage", "storage") and not args:
+        # the memory a tensor (or any view of it) lives in: one per storage object
+        st = VUnknown("storage(T%d)" % tv.obj.id, "storage")
+        st.not_none = True
+        st.storage_of = tv.obj
+        return st
+    if name == "data_ptr" and not args:
+        return VNum("int", T.sym("ptr:T%d%s" % (tv.obj.id, "+view" if tv.view else "")), nonneg=True)
     if name == "contiguous":
         # self when the tensor is already dense, otherwise a dense copy: for a caller-supplied tensor (whose layout is not
         # known) the result may or may not share storage with it
